@@ -238,7 +238,7 @@ fn run_one(sh: &Shared, scn: usize, seed: u64, devs: &[Deviation], local: &mut S
     record(sh, s, seed, devs, &out, &verdict, local);
     let check_det = (sh.params.determinism_every > 0 && n % sh.params.determinism_every == 0)
         || verdict.findings.iter().any(|f| f.prop == sh.prop);
-    if check_det {
+    if check_det && s.deterministic() {
         let (out2, verdict2) = execute(s, devs, seed);
         local.determinism_replays += 1;
         if out2.trace.len() != out.trace.len()
